@@ -11,13 +11,17 @@ import (
 // Classes lists the representatives of every class token of ElvSyntax.tla. Every representative
 // must be valid wherever the grammar places the class (the executors check validity of every
 // concretised program by parsing it completely).
+//
+// %CMD: a command word can end up in argument position (`a &k=` followed by a newline continues
+// the form: the newline after `=` is skipped), so its representatives must be valid there too
+// (no lone `<`, no `^`).
 var Classes = map[string][]string{
 	"%SP":     {" ", "  ", "\t", " ^\n", " ^\r\n "},
 	"%WS":     {" ", "\n", " \n ", " # c\n", "\t", "\r\n"},
 	"%PSEP":   {"\n", ";", " ; ", "\r\n", " # c\n", "\n\n", "; ", "#c\n"},
 	"%PIPE":   {"|", " | ", "|\n", " |\n  ", "| # c\n"},
 	"%BG":     {" &", "&", " & "},
-	"%CMD":    {"echo", "put", "e:ls", "+", "nop", "x:f~", "<", "a>b", "*", "a^"},
+	"%CMD":    {"echo", "put", "e:ls", "+", "nop", "x:f~", "<x", "a>b", "*", "a*b"},
 	"%KEY":    {"k", "key-1", "'a b'", "$k", "k2"},
 	"%RSIGN":  {">", "<", ">>", "<>"},
 	"%FD":     {"2", "1", "0", "10", "$f"},
@@ -32,7 +36,8 @@ var Classes = map[string][]string{
 	"%WILD":   {"*", "**", "?"},
 	"%EMAP":   {"[&]", "[& ]", "[ &]", "[\n&\n]"},
 	"%PARAMS": {"a", "a b", "@a", "a &k=v", "", " a ", "a\nb", "&k=v"},
-	"%BSEP":   {",", ", ", " ", ",\n", "\n"},
+	"%BSEP":   {",", ", ", ",\t", ",\n", ",\n "},
+	"%BWS":    {" ", "\n", "  ", "\t"},
 }
 
 // Concretise renders a token sequence; class tokens get a representative chosen with r
